@@ -69,6 +69,40 @@ def directed_scenarios() -> list:
                     "handlers": [{"id": 1, "pair": "P0", "actions": acts, "yields": 0, "via_signal": False}],
                     "wiring": [("source", 0), ("handler", 1), ("signals", 0)], "order_event_orders": False,
                     "usd": 1000, "base": 0, "suspending": False, "reindex_every": 0, "lending": True})
+    # the margin level depends on the prices of ALL pairs: a loan requested while one pair's bar is handled must be judged
+    # with the other pair's price as of the same point of the event order, whatever max_concurrent is
+    for amount in (200, 450):
+        T = 6
+        out.append({"pairs": ["P0", "P1"],
+                    "bars": [[{"t": k, "pair": "P0", "price": 10} for k in range(1, T + 1)],
+                             [{"t": k, "pair": "P1", "price": 10 if k % 2 else 100} for k in range(1, T + 1)]],
+                    "handlers": [{"id": 1, "pair": "P0", "yields": 0, "via_signal": False,
+                                  "actions": {str(k): [{"pair": "P0", "op": "buy", "amount": amount, "type": "market", "read": False,
+                                                        "ab": True, "ar": False}] for k in range(1, T)}}],
+                    "wiring": [("source", 0), ("source", 1), ("handler", 1), ("signals", 0)], "order_event_orders": False,
+                    "usd": 0, "base": 0, "init": {"P1": 10}, "suspending": False, "reindex_every": 0, "lending": True})
+    # interest charged in the base symbol of ANOTHER pair: an auto-repay order that fills on P0's bar pays interest converted
+    # at P1's price as of that point of the event order (P1's bar of the same timestamp comes later), whatever max_concurrent
+    for t_sell in (3, 4):
+        acts = {"1": [{"pair": "P0", "op": "buy", "amount": 1000, "type": "market", "read": False, "ab": True, "ar": False}],
+                str(t_sell): [{"pair": "P0", "op": "sell", "amount": 1000, "type": "market", "read": False, "ab": False, "ar": True}]}
+        out.append({"pairs": ["P0", "P1"],
+                    "bars": [[{"t": k, "pair": "P0", "price": 10} for k in range(1, 8)],
+                             [{"t": k, "pair": "P1", "price": 10 if k % 2 else 100} for k in range(1, 8)]],
+                    "handlers": [{"id": 1, "pair": "P0", "yields": 0, "via_signal": False, "actions": acts}],
+                    "wiring": [("source", 0), ("source", 1), ("handler", 1), ("signals", 0)], "order_event_orders": False,
+                    "usd": 0, "base": 0, "init": {"P1": 1000}, "suspending": False, "reindex_every": 0, "lending": True,
+                    "interest_symbol": "P1"})
+    # a signal that lists several pairs: the orders compete for the same funds, so the order of the pairs matters and must
+    # not depend on the interpreter's hash seed
+    for usd in (35, 60):
+        acts = {str(k): [{"pair": p, "op": "buy", "amount": 2, "type": "market", "read": False, "ab": False, "ar": False}
+                         for p in ("P0", "P1", "P2", "P3")] for k in (1, 2, 3)}
+        out.append({"pairs": ["P0", "P1", "P2", "P3"],
+                    "bars": [[{"t": k, "pair": p, "price": 10} for k in range(1, 6) for p in ("P0", "P1", "P2", "P3")]],
+                    "handlers": [{"id": 1, "pair": "P0", "yields": 0, "via_signal": True, "actions": acts}],
+                    "wiring": [("source", 0), ("handler", 1), ("signals", 0)], "order_event_orders": False,
+                    "usd": usd, "base": 0, "suspending": False, "reindex_every": 0, "lending": False, "hashseeds": [0, 1, 2, 3]})
     return out
 
 
@@ -84,10 +118,12 @@ async def run_async(S: dict, maxc: int) -> dict:
     init = {"USD": Decimal(S["usd"])}
     for p in S["pairs"]:
         init[p] = Decimal(S["base"])
+    init.update({k: Decimal(v) for k, v in S.get("init", {}).items()})
+    init = {k: v for k, v in init.items() if v or k == "USD"}
     kw = {}
     if S.get("lending"):
         kw["lending_strategy"] = lending.MarginLoans("USD", default_conditions=lending.MarginLoanConditions(
-            interest_symbol="USD", interest_percentage=Decimal(7), interest_period=datetime.timedelta(hours=3),
+            interest_symbol=S.get("interest_symbol", "USD"), interest_percentage=Decimal(7), interest_period=datetime.timedelta(hours=3),
             min_interest=Decimal(0), margin_requirement=Decimal("0.2")))
     ex = bex.Exchange(d, init, liquidity_strategy_factory=liquidity.InfiniteLiquidity, **kw)
     for sym in init:
@@ -143,22 +179,52 @@ async def run_async(S: dict, maxc: int) -> dict:
     signals = bs.TradingSignalSource(d)
     pending_signal = {}
 
-    async def on_signal(sig):
-        key, a = pending_signal.pop(id(sig))
-        await place(key, a)
+    async def on_signal_(sig):
+        items = pending_signal.pop(id(sig))
+        by_pair = {a["pair"]: (key, a) for key, a in items}
+        # one order per pair of the signal, in the order the signal lists its pairs
+        for pair, _position in sig.get_pairs():
+            key, a = by_pair[pair.base_symbol]
+            await place(key, a)
+
+    herrors = []
+
+    def guarded(fn):
+        # the dispatcher swallows (logs) what handlers raise: a bug of the HARNESS inside a handler must not pass silently
+        async def wrapper(ev):
+            try:
+                await fn(ev)
+            except Exception as e:  # noqa: BLE001
+                import traceback
+                herrors.append(f"{type(e).__name__}: {e} @ {traceback.format_exc()[-400:]}")
+                raise
+        return wrapper
+
+    on_signal = guarded(on_signal_)
 
     def make_handler(h):
+        @guarded
         async def on_bar(ev):
             t = tick(ev.when)
-            for k, a in enumerate(h["actions"].get(str(t), [])):
+            acts = list(enumerate(h["actions"].get(str(t), [])))
+            if h.get("via_signal") and acts:
                 for _ in range(h["yields"]):
                     await asyncio.sleep(0)
-                if h.get("via_signal"):
-                    sig = bs.TradingSignal(ev.when, bs.Position.LONG if a["op"] == "buy" else bs.Position.SHORT, pair_obj[a["pair"]])
-                    pending_signal[id(sig)] = (f"h{h['id']}@{t}#{k}", a)
-                    signals.push(sig)
-                else:
-                    await place(f"h{h['id']}@{t}#{k}", a)
+                # one signal carrying every pair the strategy wants to trade now (the last action per pair wins)
+                per_pair = {}
+                for k, a in acts:
+                    per_pair[a["pair"]] = (f"h{h['id']}@{t}#{k}", a)
+                from basana.core.event_sources.trading_signal import BaseTradingSignal
+                sig = BaseTradingSignal(ev.when)
+                for pname, (key, a) in per_pair.items():
+                    sig.add_pair(pair_obj[pname], bs.Position.LONG if a["op"] == "buy" else bs.Position.SHORT)
+                pending_signal[id(sig)] = list(per_pair.values())
+                signals.push(sig)
+                return
+            for k, a in acts:
+                for _ in range(h["yields"]):
+                    await asyncio.sleep(0)
+                await place(f"h{h['id']}@{t}#{k}", a)
         return on_bar
 
     async def on_order_event(ev):
@@ -192,6 +258,8 @@ async def run_async(S: dict, maxc: int) -> dict:
         outcome = f"raised:{type(e).__name__}"
     logging.disable(logging.NOTSET)
     bals = await ex.get_balances()
+    if herrors:
+        raise RuntimeError("handler of the harness failed: " + herrors[0])
     return {"maxc": maxc, "outcome": outcome,
             "orders": sorted(({"key": o["key"], "at": o["at"], "fills": o["fills"]} for o in orders.values()), key=lambda o: o["key"]),
             "balances": {s: [int(b.available * 100), int(b.hold * 100), int(b.borrowed * 100)] for s, b in sorted(bals.items())}}
